@@ -111,12 +111,18 @@ HTypes == {<<"string", "">>, <<"string", "uuid">>, <<"integer", "">>, <<"boolean
 HCls   == {"ok", "absent", "bad", "empty"}
 \* declaration patterns: service header A (required), method header B (required),
 \* method-level re-declaration of A: none / required again (case variant) / optional (switches it off)
-Overrides == {"none", "again", "optional"}
+\* (again_case / optional_case: the re-declaration spells the name in another letter case, and the service-level
+\* spelling comes first in byte order - header names are case-insensitive, the method-level declaration wins)
+Overrides == {"none", "again", "optional", "again_case", "optional_case"}
+HdrAs(n, ln, lvl, reqd, ty, fmt) == [Hdr(ln, lvl, reqd, ty, fmt) EXCEPT !.name = n]
 Decl(tyA, tyB, ov) ==
-  <<Hdr("x-a", "svc", TRUE, tyA[1], tyA[2]), Hdr("x-b", "method", TRUE, tyB[1], tyB[2]), Hdr("x-c", "svc", FALSE, "integer", "")>>
+  <<HdrAs(IF ov \in {"again_case", "optional_case"} THEN "X-A" ELSE "x-a", "x-a", "svc", TRUE, tyA[1], tyA[2]),
+    Hdr("x-b", "method", TRUE, tyB[1], tyB[2]), Hdr("x-c", "svc", FALSE, "integer", "")>>
   \o (CASE ov = "none" -> <<>>
         [] ov = "again" -> <<Hdr("x-a", "method", TRUE, "integer", "")>>
-        [] ov = "optional" -> <<Hdr("x-a", "method", FALSE, tyA[1], tyA[2])>>)
+        [] ov = "optional" -> <<Hdr("x-a", "method", FALSE, tyA[1], tyA[2])>>
+        [] ov = "again_case" -> <<HdrAs("X-a", "x-a", "method", TRUE, "integer", "")>>
+        [] ov = "optional_case" -> <<HdrAs("X-a", "x-a", "method", FALSE, tyA[1], tyA[2])>>)
 C09Requests ==
   { Mk(Rpc(v, "string", Decl(ta, tb, ov)),
        <<[lname |-> "x-a", cls |-> ca], [lname |-> "x-b", cls |-> cb], [lname |-> "x-c", cls |-> cc]>>,
